@@ -35,6 +35,7 @@ abbrev Hid := Nat
 
 inductive Errno where
   | EINTR | EEXIST | ENOENT | EINVAL | EBADF
+  | ENOMEM | EACCES | EMFILE      -- only ever produced by a scripted failure (`Action.fail`)
 deriving DecidableEq, Repr
 
 def Errno.num : Errno → Nat
@@ -43,6 +44,9 @@ def Errno.num : Errno → Nat
   | .ENOENT => PV.Generated.IPC.ENOENT
   | .EINVAL => PV.Generated.IPC.EINVAL
   | .EBADF => PV.Generated.IPC.EBADF
+  | .ENOMEM => PV.Generated.IPC.ENOMEM
+  | .EACCES => PV.Generated.IPC.EACCES
+  | .EMFILE => PV.Generated.IPC.EMFILE
 
 /-- result of one system call: a value (0, descriptor, object, size, address), an errno, or
     "would block" (`sem_wait` at 0: the caller stays inside the call) -/
@@ -583,6 +587,7 @@ inductive Action where
   | start (t : Tid) (op : Op)
   | step (t : Tid) (intr : Bool)
   | kill (p : Pid)
+  | fail (t : Tid) (e : Errno)      -- the next system call of `t` fails with `e` (scripted environment failure)
 deriving DecidableEq, Repr
 
 def G.setCall (g : G) (t : Tid) (c : Option Call) : G :=
@@ -680,10 +685,29 @@ def G.kill (g : G) (p : Pid) : G :=
                           | none => none,
            calls := fun t => if g.pidOf t = p then none else g.calls t }
 
+/-- The system call the call in flight on `t` is about to make FAILS with `e`: a scripted failure of the
+    environment (EMFILE, ENOMEM, EACCES, a failing `close` / `munmap` / `sem_post`, …) that the name space
+    machine `sysStep` never produces by itself.  Nothing happens in the OS (the call is not performed), the
+    library sees `-1` / `errno = e` and goes on exactly as the C code does after that result. -/
+def G.fail (g : G) (t : Tid) (e : Errno) : G :=
+  match g.calls t with
+  | none => g
+  | some c =>
+    let p := g.pidOf t
+    let g' := { g with log := ⟨t, p, c.next, .err e⟩ :: g.log }
+    match c.after (.err e) with
+    | .cont c' => g'.setCall t (some c')
+    | .done (ret, nh) =>
+      let g'' := (g'.setCall t none).setRet t ret
+      match nh with
+      | some (hid, x) => g''.setHandle hid (some (p, x))
+      | none => g''
+
 def exec (g : G) : Action → G
   | .start t op => g.start t op
   | .step t intr => g.step t intr
   | .kill p => g.kill p
+  | .fail t e => g.fail t e
 
 def execAll (g : G) (as : List Action) : G := as.foldl exec g
 
@@ -710,5 +734,51 @@ def seqFuel : Nat := 16
 /-- `op` on thread `t`, sequentially -/
 def G.call (g : G) (t : Tid) (op : Op) (script : List Nat := []) : G :=
   runCall (g.start t op) t script seqFuel
+
+/-! ## sequential runs with scripted failures -/
+
+/-- run the call in flight on `t` to its end; its `i`-th system call (counted from `i`, failed ones included)
+    fails with `e` when `(i, e) ∈ faults`, every other one is performed -/
+def runCallF (g : G) (t : Tid) (faults : List (Nat × Errno)) (i : Nat) : Nat → G
+  | 0 => g
+  | fuel + 1 =>
+    match g.calls t with
+    | none => g
+    | some _ =>
+      match faults.find? (·.1 = i) with
+      | some (_, e) => runCallF (g.fail t e) t faults (i + 1) fuel
+      | none =>
+        let g2 := g.step t false
+        match g2.log with
+        | ⟨_, _, _, .block⟩ :: _ => g2
+        | _ => runCallF g2 t faults (i + 1) fuel
+
+def seqFuelF : Nat := 24
+
+/-- `op` on thread `t`, sequentially, with scripted failures -/
+def G.callF (g : G) (t : Tid) (op : Op) (faults : List (Nat × Errno)) : G :=
+  runCallF (g.start t op) t faults 0 seqFuelF
+
+/-! ## NULL / invalid-argument guards of the public calls (no system call is made, nothing changes) -/
+
+inductive GuardCall where
+  | semNewNull | semNewNegative | semOwn | semAcq | semRel | semFree
+  | shmNewNull | shmOwn | shmFree | shmLock | shmUnlock | shmAddr | shmSize
+deriving DecidableEq, Repr
+
+inductive GuardRes where
+  | invalidArgument      -- NULL / FALSE and a PError (P_ERROR_IPC_INVALID_ARGUMENT, native code 0)
+  | nothing              -- a void call that returns at once
+  | null                 -- p_shm_get_address
+  | zero                 -- p_shm_get_size
+deriving DecidableEq, Repr
+
+/-- what each public call does with a NULL handle / name (or `init_val < 0`) -/
+def guardRes : GuardCall → GuardRes
+  | .semNewNull | .semNewNegative | .semAcq | .semRel => .invalidArgument
+  | .shmNewNull | .shmLock | .shmUnlock => .invalidArgument
+  | .semOwn | .semFree | .shmOwn | .shmFree => .nothing
+  | .shmAddr => .null
+  | .shmSize => .zero
 
 end PV.IPC
